@@ -1,3 +1,320 @@
 import B6.Driver.Common
-/-! Driver for C33 — stub (the check for this property is not built yet). -/
-def main : IO Unit := B6.Driver.run { σ := Unit, init := (), step := fun s _ _ => (s, .bad) }
+import B6.Model.TileEncoder
+/-!
+Driver for C33 (vector tile geometry codec).  Three groups of operations; the state is reset at every `case`.
+
+zigzag (hooks `VerifC33ZigzagEncode/Decode`)
+  `zz <int64 v>`                        answer `<uint32 enc> <int dec>`  (enc = zigzagEncode v, dec = zigzagDecode enc)
+  `unzz <uint32 w>`                     answer `<int dec> <uint32 enc>`  (dec = zigzagDecode w, enc = zigzagEncode dec)
+
+Encoder API (one `renderer.Encoder`)
+  `new <ox> <oy>`                       answer `ok`
+  `start`                               answer `ok`
+  `mv <n>` `ln <n>` `cp` `xy <x> <y>`   answer `g=[words]` | `panic`
+  `id <n>`                              answer `id=<n>` | `panic`
+  `tag <key> <s:str|i:int64|n:int|f:other>`  answer `t=[words] keys=[..] values=[s:..|i:..]` | `panic`
+
+EncodeTile
+  `tile <z> <x> <y> [name:nfeatures …]` answer `[layer names of the encoded tile]`
+  `bg`                                  answer `v=2 e=4096 keys=[] values=[] n=1 type=3 id=- t=[] g=[…]`
+  `layer <name>`                        answer `v=<version> e=<extent> n=<features>`
+  `feat id=<id> tags=[k=v …] <geom>`    answer `type=<t> id=<id|-> t=[words] g=[words]`
+        geom = `P x,y` | `L x,y;x,y…` | `G o:x,y;x,y;…|h:x,y;…` | `G -`   (projected integers dumped by the harness)
+  `tables`                              answer `keys=[…] values=[s:…]`
+
+For `feat` the model re-encodes the geometry from the projected integers (exact comparison of the command
+stream), and the property predicate is evaluated on the implementation's stream: it must decode, by the MVT 2.1
+grammar, to the expected coordinates (`geometry`), and every decoded ring must have the signed area of its loop,
+negated for holes (`winding`).  Tag words are judged at `tables`: through the implementation's tables they must
+decode to the feature's tags (`tags`); the order in which Go iterated the tag map is taken from the
+implementation's answer and the model's interning is replayed in that order (exact comparison of tables and words).
+-/
+open B6.Driver B6.Model.TileEncoder
+namespace B6.Driver.C33
+
+def parseInt (s : String) : Option Int := s.toInt?
+def parseNat (s : String) : Option Nat := s.toNat?
+
+def parsePt (s : String) : Option Pt :=
+  match s.splitOn "," with
+  | [a, b] => do some ((← parseInt a), (← parseInt b))
+  | _ => none
+
+def parsePts (s : String) : Option (List Pt) :=
+  if s == "-" then some [] else (s.splitOn ";").mapM parsePt
+
+def parseLoop (s : String) : Option (Bool × List Pt) :=
+  if s.startsWith "o:" then (parsePts (sdrop s 2)).map fun p => (false, p)
+  else if s.startsWith "h:" then (parsePts (sdrop s 2)).map fun p => (true, p)
+  else none
+
+def parseGeom (kind body : String) : Option Geom :=
+  match kind with
+  | "P" => (parsePt body).map .point
+  | "L" => (parsePts body).map .line
+  | "G" => if body == "-" then some (.polygon []) else ((body.splitOn "|").mapM parseLoop).map .polygon
+  | _ => none
+
+def renderWords (ws : List UInt32) : String := renderList (ws.map fun w => toString w.toNat)
+
+def parseWords (s : String) : Option (List UInt32) := do
+  let ws ← parseBracket s
+  ws.mapM fun w => (parseNat w).bind fun n => if n < 4294967296 then some (UInt32.ofNat n) else none
+
+def renderVal : Val → String
+  | .str s => "s:" ++ s
+  | .int i => "i:" ++ toString i
+
+def parseVal (s : String) : Option Val :=
+  if s.startsWith "s:" then some (.str (sdrop s 2))
+  else if s.startsWith "i:" then (parseInt (sdrop s 2)).map .int
+  else none
+
+/-- `k=<field>` lookup in a space-separated answer such as `type=3 id=- t=[1 2] g=[9 2 2]` (bracket groups may
+contain spaces) -/
+def field (ans key : String) : Option String :=
+  let pat := key ++ "="
+  match (" " ++ ans).splitOn (" " ++ pat) with
+  | _ :: rest :: _ =>
+    if rest.startsWith "[" then
+      match rest.splitOn "]" with
+      | body :: _ => some (body ++ "]")
+      | [] => none
+    else
+      match rest.splitOn " " with
+      | w :: _ => some w
+      | [] => none
+  | _ => none
+
+structure Pending where
+  expected : List (String × String)
+  words : String                    -- the implementation's tag words, as text
+
+structure St where
+  enc : Option Enc := none          -- Encoder API group / current layer of the tile group
+  origin : Pt := (0, 0)
+  pending : List Pending := []      -- features of the current layer, newest first
+  tileLayers : List (String × Nat) := []
+
+def renderTables (e : Enc) : String :=
+  s!"keys={renderList e.keys} values={renderList (e.values.map renderVal)}"
+
+def curGeom (e : Enc) : String :=
+  match e.cur with
+  | some f => "g=" ++ renderWords f.geometry
+  | none => "panic"
+
+def simple (impl model : String) : Verdict := if impl == model then .ok else .diff model
+
+/-- Encoder API op: new state and the model's answer -/
+def apiOp (st : St) (o : Option Enc) (render : Enc → String) : St × String :=
+  match o with
+  | some e => ({ st with enc := some e }, render e)
+  | none => (st, "panic")
+
+def wellFormedB : Geom → Bool
+  | .point _ => true
+  | .line pts => 2 ≤ pts.length && pts.length ≤ 2 ^ 29
+  | .polygon loops => loops.all fun l => l.2.length != 2 && l.2.length ≤ 2 ^ 29
+
+def sortPairs (l : List (String × String)) : List (String × String) :=
+  (l.toArray.qsort fun a b => a.1 < b.1 || (a.1 == b.1 && a.2 < b.2)).toList
+
+/-- signed areas of the drawn loops, as a reader must see them -/
+def expectedAreas (loops : List (Bool × List Pt)) : List Int :=
+  (loops.filter fun l => l.2.length > 1).map fun l => if l.1 then - area2 l.2 else area2 l.2
+
+def judgeFeat (st : St) (idN : Nat) (g : Geom) (impl : String) : St × Verdict :=
+  match st.enc with
+  | none => (st, .bad)
+  | some e =>
+    let o := (e.ox, e.oy)
+    -- the model (geometry and id; tags are replayed at `tables`)
+    let me := (encodeGeom e g).bind fun e1 => if idN ≠ 0 then setID e1 idN else some e1
+    let implT := (field impl "t").getD "[]"
+    let model :=
+      match me with
+      | none => "panic"
+      | some e1 =>
+        match e1.cur with
+        | none => "panic"
+        | some f =>
+          let idS := match f.id with | some i => toString i | none => "-"
+          s!"type={f.ftype} id={idS} t={implT} g={renderWords f.geometry}"
+    let st' : St := match me with
+      | some e1 => { st with enc := some e1 }
+      | none => { st with enc := some (startFeature e) }
+    -- the property predicate on the implementation's own stream
+    let applicable := wellFormedB g && decide (DeltasOk o g.visited)
+    let verdict : Verdict :=
+      if impl == "panic" then
+        (if applicable then .propfail "geometry" else simple impl model)
+      else
+        match (field impl "type").bind parseNat, (field impl "g").bind parseWords with
+        | some t, some ws =>
+          if !applicable then simple impl model
+          else if t ≠ g.ftype then .propfail "geometry-type"
+          else
+            match decodeGeometry t ws with
+            | none => .propfail "geometry"
+            | some d =>
+              if d ≠ g.expected o then .propfail "geometry"
+              else
+                let windingOk := match g, d with
+                  | .polygon loops, .rings rs => rs.map area2 == expectedAreas loops
+                  | _, _ => true
+                if !windingOk then .propfail "winding" else simple impl model
+        | _, _ => .bad
+    (st', verdict)
+
+def parseTagsList (s : String) : Option (List (String × String)) := do
+  let ws ← parseBracket s
+  ws.mapM fun w => match w.splitOn "=" with
+    | [k, v] => some (k, v)
+    | _ => none
+
+/-- replay the interning for the features of a layer in the given per-feature orders -/
+def replayTags (orders : List (List (String × String))) : Option Enc :=
+  orders.foldlM (fun e ts => tags (startFeature e) (ts.map fun (k, v) => (k, TagArg.str v))) (newEncoder 0 0)
+
+def judgeTables (st : St) (impl : String) : St × Verdict :=
+  let feats := st.pending.reverse
+  let st' := { st with pending := [] }
+  match (field impl "keys").bind parseBracket, (field impl "values").bind parseBracket with
+  | some keys, some valWs =>
+    match valWs.mapM parseVal with
+    | none => (st', .bad)
+    | some values =>
+      -- decode every feature through the implementation's tables
+      let decoded := feats.map fun p =>
+        (parseWords p.words).bind fun ws => decodeTags keys values ws
+      let asStr (l : List (String × Val)) : Option (List (String × String)) :=
+        l.mapM fun (k, v) => match v with | .str s => some (k, s) | .int _ => none
+      let okAll := (feats.zip decoded).all fun (p, d) =>
+        match d.bind asStr with
+        | some pairs => sortPairs pairs == sortPairs p.expected
+        | none => false
+      if !okAll then (st', .propfail "tags")
+      else
+        let orders := (feats.zip decoded).map fun (p, d) => ((d.bind asStr).getD p.expected)
+        match replayTags orders with
+        | none => (st', .diff "panic")
+        | some e =>
+          let modelWords := e.features.map fun f => renderWords f.tags
+          let model := renderTables e
+          if modelWords == feats.map (·.words) then (st', simple impl model)
+          else (st', .diff (model ++ " words=" ++ " ".intercalate modelWords))
+  | _, _ => (st', .bad)
+
+def backgroundAnswer : String :=
+  match backgroundLayer with
+  | some e =>
+    match e.cur with
+    | some f => s!"v=2 e=4096 {renderTables e} n={e.features.length} type={f.ftype} id=- t={renderWords f.tags} g={renderWords f.geometry}"
+    | none => "panic"
+  | none => "panic"
+
+def step (st : St) (op impl : String) : St × Verdict :=
+  match words op with
+  | ["zz", v] =>
+    match parseInt v with
+    | none => (st, .bad)
+    | some d =>
+      let enc := zigzagEncode d
+      let model := s!"{enc.toNat} {zigzagDecode enc}"
+      -- predicate: an int32 delta must come back from the implementation's own decode of its own encoding
+      let v := match words impl with
+        | [_, dec] => if decide (inInt32 d) && parseInt dec != some d then Verdict.propfail "zigzag" else simple impl model
+        | _ => if impl == "panic" then (if decide (inInt32 d) then .propfail "zigzag" else simple impl model) else .bad
+      (st, v)
+  | ["unzz", w] =>
+    match parseNat w with
+    | none => (st, .bad)
+    | some n =>
+      let dec := zigzagDecode (UInt32.ofNat n)
+      let model := s!"{dec} {(zigzagEncode dec).toNat}"
+      let v := match words impl with
+        | [_, enc] => if parseNat enc != some n then Verdict.propfail "zigzag-onto" else simple impl model
+        | _ => .bad
+      (st, v)
+  | ["new", ox, oy] =>
+    match parseInt ox, parseInt oy with
+    | some x, some y => ({ st with enc := some (newEncoder x y) }, simple impl "ok")
+    | _, _ => (st, .bad)
+  | ["start"] =>
+    match st.enc with
+    | some e => ({ st with enc := some (startFeature e) }, simple impl "ok")
+    | none => (st, .bad)
+  | ["mv", n] =>
+    match st.enc, parseNat n with
+    | some e, some k => let (s, m) := apiOp st (moveTo e k) curGeom; (s, simple impl m)
+    | _, _ => (st, .bad)
+  | ["ln", n] =>
+    match st.enc, parseNat n with
+    | some e, some k => let (s, m) := apiOp st (lineTo e k) curGeom; (s, simple impl m)
+    | _, _ => (st, .bad)
+  | ["cp"] =>
+    match st.enc with
+    | some e => let (s, m) := apiOp st (closePath e) curGeom; (s, simple impl m)
+    | none => (st, .bad)
+  | ["xy", x, y] =>
+    match st.enc, parseInt x, parseInt y with
+    | some e, some a, some b => let (s, m) := apiOp st (xy e a b) curGeom; (s, simple impl m)
+    | _, _, _ => (st, .bad)
+  | ["id", n] =>
+    match st.enc, parseNat n with
+    | some e, some k => let (s, m) := apiOp st (setID e k) (fun _ => s!"id={k}"); (s, simple impl m)
+    | _, _ => (st, .bad)
+  | ["tag", k, v] =>
+    let arg : Option TagArg :=
+      if v.startsWith "s:" then some (.str (sdrop v 2))
+      else if v.startsWith "i:" then (parseInt (sdrop v 2)).map .i64
+      else if v.startsWith "n:" then (parseInt (sdrop v 2)).map .int
+      else if v.startsWith "f:" then some .other
+      else none
+    match st.enc, arg with
+    | some e, some a =>
+      let (s, m) := apiOp st (tag e k a) fun e' =>
+        match e'.cur with
+        | some f => s!"t={renderWords f.tags} {renderTables e'}"
+        | none => "panic"
+      (s, simple impl m)
+    | _, _ => (st, .bad)
+  | "tile" :: _z :: _x :: _y :: _ =>
+    match parseNat _x, parseNat _y, parseBracket (" ".intercalate ((words op).drop 4)) with
+    | some x, some y, some ls =>
+      let layers := ls.filterMap fun w => match w.splitOn ":" with
+        | [n, c] => (parseNat c).map fun k => (n, k)
+        | _ => none
+      if layers.length ≠ ls.length then (st, .bad) else
+      let model := renderList ("background" :: (layers.filter fun l => l.2 ≠ 0).map (·.1))
+      ({ st with origin := tileOrigin x y, tileLayers := layers, enc := none, pending := [] }, simple impl model)
+    | _, _, _ => (st, .bad)
+  | ["bg"] => (st, simple impl backgroundAnswer)
+  | ["layer", name] =>
+    match st.tileLayers.find? fun l => l.1 == name with
+    | some (_, n) =>
+      ({ st with enc := some (newEncoder st.origin.1 st.origin.2), pending := [] }, simple impl s!"v=2 e=4096 n={n}")
+    | none => (st, .bad)
+  | "feat" :: idw :: rest =>
+    -- rest = tags=[…] <kind> <body>
+    let restS := " ".intercalate rest
+    match (if idw.startsWith "id=" then parseNat (sdrop idw 3) else none), field restS "tags" with
+    | some idN, some tagsS =>
+      match parseTagsList tagsS, rest.reverse with
+      | some tgs, body :: kind :: _ =>
+        match parseGeom kind body with
+        | some g =>
+          let (st1, v) := judgeFeat st idN g impl
+          ({ st1 with pending := { expected := tgs, words := (field impl "t").getD "[]" } :: st1.pending }, v)
+        | none => (st, .bad)
+      | _, _ => (st, .bad)
+    | _, _ => (st, .bad)
+  | ["tables"] => judgeTables st impl
+  | _ => (st, .bad)
+
+def family : Family := { σ := St, init := {}, step := step }
+
+end B6.Driver.C33
+
+def main : IO Unit := B6.Driver.run B6.Driver.C33.family
